@@ -61,11 +61,15 @@ Emit == /\ Ev.ev = "emit"
                 ELSE IF ~StaticOK(m) THEN PrintT(<<"FAIL", cfg.run, "static part is not an answer over the static data", l>>) /\ bad' = TRUE /\ UNCHANGED <<cfg, latest, answers, leak>>
                 ELSE PrintT(<<"FAIL", cfg.run, "unexplained", l>>) /\ bad' = TRUE /\ UNCHANGED <<cfg, latest, answers, leak>>
 
+Hang == /\ Ev.ev = "hang"
+        /\ (IF bad THEN TRUE ELSE PrintT(<<"FAIL", cfg.run, "deadlock", l>>))
+        /\ bad' = TRUE /\ UNCHANGED <<cfg, latest, answers, leak>>
+
 End == /\ Ev.ev = "end"
        /\ (IF Ev.panic /\ ~bad THEN PrintT(<<"FAIL", cfg.run, "panic", l>>) ELSE TRUE)
        /\ UNCHANGED <<cfg, latest, answers, leak, bad>>
 
-Next == l <= Len(Rec) /\ l' = l + 1 /\ (Reset \/ Skip \/ Fire \/ Emit \/ End)
+Next == l <= Len(Rec) /\ l' = l + 1 /\ (Reset \/ Skip \/ Fire \/ Emit \/ End \/ Hang)
 Spec == Init /\ [][Next]_vars
 
 Consumed == IF TLCGet("stats").diameter - 1 = Len(Rec) THEN TRUE
